@@ -136,8 +136,8 @@ MC.update({
             "thorough": [_mc("rw1h"), _mc("rw1h_nf0"), _mc("churn"), _mc("churn2")]},
     "C11": {"quick": [_mc("churn"), _mc("churn_nf0")], "thorough": [_mc("churn"), _mc("churn_nf0"), _mc("churn2")]},
     "C12": {"quick": [_mc("2c"), _mc("2c_nf0")], "thorough": [_mc("2c"), _mc("2c_nf0"), _mc("hc", timeout=3600, workers=14), _mc("bug_hc_addr", "Refines", timeout=3600, workers=14)]},
-    "C13": {"quick": [_mc("wrap_fixed"), _mc("wrapw_fixed"), _mc("wrap_code", "Refines")],
-            "thorough": [_mc("wrap_fixed"), _mc("wrapw_fixed"), _mc("wrap_code", "Refines")]},
+    "C13": {"quick": [_mc("wrap_fixed"), _mc("wrapw_fixed"), _mc("wrap2c_fixed"), _mc("wrap_code", "Refines"), _mc("bug_wrap_cycle", "Refines")],
+            "thorough": [_mc("wrap_fixed"), _mc("wrapw_fixed"), _mc("wrap2c_fixed"), _mc("wrap_code", "Refines"), _mc("bug_wrap_cycle", "Refines")]},
     "C16": {"quick": [_mc("cache"), _mc("cache_nf0"), _mc("bug_cache", "Refines")],
             "thorough": [_mc("cache"), _mc("cache_nf0"), _mc("cache2"), _mc("bug_cache", "Refines")]},
     "C18": {"quick": [], "thorough": []},
@@ -169,7 +169,7 @@ MANIFEST_TEXT = {
     "C13": {"text": "GenMod = 2 in ArcSwapImpl: the design of 1.7.1 (WrapMode code) violates NoPanic (negative control = finding F1), the repaired design (fixed) holds all invariants incl. the nested case; on the real crate the generation counter is preset next to the wrap (verif::set_generation), incl. the wrap inside a writer's nested load at every reader position; any panic, abort or hang of an operation is a violation."},
     "C14": {"text": "All sequential programs of length <= 2 (thorough: 3) plus random deeper ones are enumerated by TLC from spec/SeqGen.tla and executed under DefaultStrategy, the fallback-only strategy and RwLock<()>; ArcSwapAbs pins every returned identity and every count in a sequential run; the identities must also agree across the strategies."},
     "C15": {"text": "All operation sequences (into_ptr, from_ptr, as_ptr, inc, dec, clone, drop, upgrade, drop of the target) up to length 4/5 from 20 initial count states are enumerated by TLC from spec/RefCntLaws.tla with the predicted counts and executed on the real impls for 4 pointee layouts."},
-    "C16": {"text": "Cache::new / Cache::load (Relaxed pointer compare + load_full, release of the superseded value) are actions of ArcSwapImpl, model-checked against the cache clauses of ArcSwapAbs (seeded model bug 'never revalidates' must be caught). Cache clauses of ArcSwapAbs (value returned was stored during the call, i.e. current-or-newer and never older than the previous result) on concurrent executions incl. a store landing at every point inside Cache::load followed by address reuse; sequential cache programs via SeqGen."},
+    "C16": {"text": "Cache::new / Cache::load (Relaxed pointer compare + load_full, release of the superseded value) are actions of ArcSwapImpl, model-checked against the cache clauses of ArcSwapAbs (seeded model bug 'never revalidates' must be caught). Cache clauses of ArcSwapAbs (value returned was stored during the call, i.e. current-or-newer and never older than the previous result) on concurrent executions incl. a store landing at every point inside Cache::load followed by address reuse; sequential cache programs via SeqGen; all programs of <= 4 (thorough: 5) stores / loads through every way of looking through a cache (inherent load, the Access trait, a mapped cache, a clone; ArcSwap and ArcSwapOption with None) enumerated by TLC from spec/CacheViews.tla with the predicted result and the predicted strong count of every value after every step."},
     "C17": {"text": "Projection guards through Access, Map (static), Box<dyn DynAccess>, Map of Map, AccessConvert and ArcSwapAny::map: the snapshot shown is one value stored during the load, stays the same and alive for the guard's life while stores happen."},
     "C18": {"text": "Fault enumeration: panicking destructors at every site where the library drops a value (displaced by store, rejected by compare_and_swap/rcu, candidate of a helped fallback load, guard drop) and panicking rcu closures on attempt 1..3, under contention; after unwinding the ledger clauses must hold (tagged C18)."},
     "C19": {"text": "TLC evaluates the auto-trait algebra of spec/AutoTraits.tla (440 instantiations: handles Arc/&/Rc/Box, projections thread-bound/shareable) incl. its soundness clause; rustc answers the same 880 questions about the real types through a compile-time probe; each row must be sound and, except DynGuard, exact.", "technique": "TLA+ table (AutoTraits.tla) evaluated by TLC, compared with rustc's answers"},
@@ -527,6 +527,43 @@ def serde_stage(tier, seed, key, P):
             "samples": shapes[::40]}
 
 
+def cache_views_stage(tier, seed, key, P):
+    """C16, sequential: programs over all ways of looking through a cache (inherent load, the Access trait, a mapped cache, a clone)
+    enumerated by TLC from spec/CacheViews.tla with predicted results and strong counts, executed on the real types"""
+    import json, os, subprocess
+    wd = os.path.join(P.CACHE, "%s-%s-cviews" % (key, tier))
+    marker = os.path.join(wd, "cviews.json")
+    if os.path.exists(marker):
+        return json.load(open(marker))
+    os.makedirs(wd, exist_ok=True)
+    progs, states, trans = [], 0, 0
+    for flavour, n in (("plain", 4 if tier == "quick" else 5), ("option", 4 if tier == "quick" else 5)):
+        cfg = "SPECIFICATION Spec\nCONSTANTS MaxLen = %d  Flavour = \"%s\"\nINVARIANTS Sane PrintProgram\nCHECK_DEADLOCK FALSE\n" % (n, flavour)
+        r, st, tr = _tlc_lines(P, "CacheViews.tla", cfg, "CVIEW", wd, workers=1)
+        progs += r
+        states += st
+        trans += tr
+    path = os.path.join(wd, "cviews.ndjson")
+    with open(path, "w") as f:
+        for p in progs:
+            f.write(json.dumps(p) + "\n")
+    r = subprocess.run([P.ASV, "seq", "cache_views", path], stdout=subprocess.PIPE, stderr=subprocess.PIPE, text=True, timeout=1800)
+    if r.returncode != 0:
+        raise P.ToolError("asv seq cache_views failed: " + r.stderr[-1000:])
+    res = json.loads(r.stdout.strip().splitlines()[-1])
+    viols = []
+    for fl in res["failures"][:5]:
+        os.makedirs(P.REPLAYS, exist_ok=True)
+        rp = os.path.join(P.REPLAYS, "C16-%s.json" % P.hashlib.sha256(json.dumps(fl, sort_keys=True).encode()).hexdigest()[:12])
+        json.dump(fl, open(rp, "w"))
+        viols.append({"id": 0, "prop": "C16", "why": fl["why"], "spec": "CacheViews", "ev": {}, "fam": "cache_views", "key": "C16/views/" + fl["why"][:60], "replay": rp})
+    out = {"viols": viols, "traces": res["programs"],
+           "coverage": {"cache_view_programs": res["programs"], "cache_view_steps": res["steps"], "states": states, "transitions": trans},
+           "samples": progs[:1]}
+    json.dump(out, open(marker, "w"))
+    return out
+
+
 EXTRA["C15"] = laws_stage
 EXTRA["C19"] = traits_stage
 EXTRA["C20"] = serde_stage
@@ -682,3 +719,4 @@ PROPS["C07"]["assumptions"] = PROPS["C07"]["assumptions"] + [
 # sequential programs also decide the sequential face of these properties
 for _p in ("C02", "C04", "C05", "C06", "C10", "C16"):
     EXTRA[_p] = ([EXTRA[_p]] if _p in EXTRA and not isinstance(EXTRA[_p], list) else EXTRA.get(_p, [])) + [seq_stage]
+EXTRA["C16"] = EXTRA["C16"] + [cache_views_stage]
